@@ -3,6 +3,7 @@ package main
 // Shared harness helpers for the agent package (plain Go; symbolic and native).
 
 import (
+	"bytes"
 	"encoding/json"
 	"errors"
 	"io"
@@ -19,11 +20,33 @@ type vpBody struct {
 	malformed bool
 	raw       []byte
 	pos       int
+	size      int // size of the text (engine: arbitrary within the bound; natively len(raw))
 }
+
+// vpMaxBody: request bodies up to this size are in scope (two 256-byte fields, every byte
+// written as a \uXXXX escape, plus framing).
+const vpMaxBody = 4096
 
 func vpJSON(doc map[string]interface{}) *vpBody {
 	raw, _ := json.Marshal(doc)
-	return &vpBody{doc: doc, raw: raw}
+	// the text of a JSON document is not unique (escapes, insignificant white space): its size
+	// is arbitrary above the minimum
+	min := 2
+	for k, v := range doc {
+		min += len(k) + 4
+		if s, ok := v.(string); ok {
+			min += len(s) + 2
+		} else {
+			min += 4
+		}
+	}
+	size := vpInt("bodysize", min, vpMaxBody)
+	if !vpSymbolic() {
+		if pad := size - len(raw); pad > 0 { // leading white space: the decoder has to read all of it
+			raw = append(bytes.Repeat([]byte{' '}, pad), raw...)
+		}
+	}
+	return &vpBody{doc: doc, raw: raw, size: size}
 }
 
 func vpMalformedJSON() *vpBody { return &vpBody{malformed: true, raw: []byte("{x")} }
